@@ -639,7 +639,7 @@ def scenarios(tier):
     # an out-of-place message arriving while an own transfer is being written in small chunks (every
     # callback of the endpoint is a separate step, so the message can land between two writes of one segment)
     for role in ('passive', 'active'):
-        for stray in ('ack', 'refuse'):
+        for stray in ('ack', 'refuse', 'ack-final-early'):
             nm = 'mid-write/%s/stray-%s' % (role, stray)
             out.append(dict(name=nm, kind='graph', dev_bound=0, max_states=600000, liveness=False, weight=30,
                             params=dict(scripted_peer=True, role=role, bundles=[bytes(range(0xa0, 0xa9)).hex()], chunk=9,
